@@ -540,10 +540,10 @@ def run_normalisation(ctx, drv, bj, sj):
                     ctx.disagree("normalise-source", {"source": s, "keep_trailing_newline": keep}, dec(a), real)
             # the property on the implementation: same text reaches the rules as in stock Jinja2 (common line breaks only)
             # (pure data only: 3.x strips the whitespace in front of `{%-` outside the token stream)
-            if not exotic.search(s) and "{" not in s:
+            if "{" not in s:
                 st = lexed_source(slx, s, sj.TemplateSyntaxError)
                 if st is not None and st != real:
-                    fail(ctx, {"kind": "source-normalisation-differs-from-stock"},
+                    fail(ctx, {"kind": "snapshot-bug-exotic-line-breaks-in-template-source" if exotic.search(s) else "source-normalisation-differs-from-stock"},
                          "the bundled lexer normalises the line breaks of a template source differently from stock Jinja2",
                          {"stream": "normalise", "source": s, "keep_trailing_newline": keep, "bundled_sees": real, "stock_sees": st})
     ctx.extra["normalisation_domain"] = {"exhaustive_max_length": maxlen, "alphabet": "a space LF CR FF U+2028", "cases": len(cases), "keep_trailing_newline": [False, True]}
@@ -806,6 +806,283 @@ def run_extensions(ctx, drv, bj, sj, cge, qtpl):
     ctx.extra["ifuses_chains"] = len(chains)
 
 
+
+
+# --------------------------------------------------------------------------------------------------
+# bugs of the bundled 2.11.dev snapshot that upstream fixed: templates of the common language (same syntax tree, same
+# documented meaning) that render differently.  Probed by dedicated families and reported under specific keys
+# (known findings); the random grammar avoids them so that any OTHER difference stays visible.
+# --------------------------------------------------------------------------------------------------
+def probe_values(spec):
+    """{"it": ["generator", 4]} -> fresh values (a generator can be consumed once, so it is described, not stored)"""
+    out = {}
+    for k, (how, v) in (spec or {}).items():
+        out[k] = (i for i in range(v)) if how == "generator" else list(range(v)) if how == "list" else v
+    return out
+
+
+def run_snapshot_bugs(ctx, bj, sj):
+    be, se = make_env(bj, {}), make_env(sj, {})
+
+    def rend(env, src, spec):
+        try:
+            return ("ok", guarded(lambda: env.from_string(src).render(**probe_values(spec)), 5))
+        except Timeout:
+            return ("err", "Timeout")
+        except Exception as e:  # noqa: BLE001
+            return ("err", type(e).__name__)
+
+    def probe(kind, what, src, spec=None, must_agree=False):
+        spec = spec or {}
+        a, b = rend(be, src, spec), rend(se, src, spec)
+        ctx.case(("snapshot", src), True)
+        ctx.count("snapshot-probe:" + kind)
+        if a != b and not (a[0] == "err" and b[0] == "err"):
+            key = {"kind": "differs-from-stock-not-because-of-the-lexer-edit"} if must_agree else {"kind": kind}
+            fail(ctx, key, what, {"stream": "differential", "origin": "snapshot-bug-probe", "templates": {"main": src}, "main": "main", "context": {}, "context_json": None,
+                                  "probe_values": spec, "trim_blocks": False, "lstrip_blocks": False, "environment_options": {}, "bundled": a, "stock": b})
+
+    # 1. a chain of comparisons over constants only is folded to its LAST comparison
+    ops = ["<", ">", "==", "!=", "<=", ">="]
+    for a_, b_, c_ in itertools.product([1, 2, 3], repeat=3):
+        for o1, o2 in itertools.product(ops, repeat=2):
+            probe("snapshot-bug-const-compare-chain", "a comparison chain over constants is folded to its last comparison", "{{ %d %s %d %s %d }}" % (a_, o1, b_, o2, c_))
+    for a_, b_ in itertools.product([1, 2, 3], repeat=2):
+        for o1 in ops:
+            for o2 in ("in", "not in"):
+                probe("snapshot-bug-const-compare-chain", "a comparison chain over constants is folded to its last comparison", "{{ %d %s %d %s [2, true] }}" % (a_, o1, b_, o2))
+            # control: the same chain with a variable is not folded and must agree
+            probe("", "comparison chain with a variable", "{{ x %s %d < 3 }}|{{ %d %s x not in [2] }}" % (o1, b_, a_, o1), {"x": ["const", 2]}, must_agree=True)
+    # 2. loop.length / revindex / revindex0 of an iterator (generator, filtered loop) first read after the first iteration
+    for n in range(0, 5):
+        for attr in ("length", "revindex", "revindex0", "last", "index"):
+            for when in ("always", "first", "last", "second"):
+                cond = {"always": "true", "first": "loop.first", "last": "loop.index == %d" % n, "second": "loop.index == 2"}[when]
+                body = "{%% if %s %%}{{ loop.%s }}{%% endif %%}," % (cond, attr)
+                probe("snapshot-bug-loop-length-of-iterator", "loop.length / loop.revindex of an iterator is off by one", "{% for x in it %}" + body + "{% endfor %}", {"it": ["generator", n]})
+                probe("snapshot-bug-loop-length-of-iterator", "loop.length / loop.revindex of an iterator is off by one", "{% for x in it if x >= 0 %}" + body + "{% endfor %}", {"it": ["list", n]})
+                probe("snapshot-bug-loop-length-of-iterator", "loop.length / loop.revindex of an iterator is off by one", "{% for x in it|select('number') %}" + body + "{% endfor %}", {"it": ["list", n]})
+                probe("", "loop attributes over a list", "{% for x in it %}" + body + "{% endfor %}", {"it": ["list", n]}, must_agree=True)
+
+# --------------------------------------------------------------------------------------------------
+# every built-in test and filter common to both engines, on a value zoo
+# --------------------------------------------------------------------------------------------------
+class Duck:
+    def __len__(self): return 2
+    def __getitem__(self, i):
+        if i in (0, 1): return i + 10
+        raise IndexError(i)
+    def __repr__(self): return "<Duck>"
+class IterOnly:
+    def __iter__(self): return iter([1, 2])
+    def __repr__(self): return "<IterOnly>"
+class CallMe:
+    def __call__(self, *a, **k): return "called"
+    def __repr__(self): return "<CallMe>"
+class Html:
+    def __html__(self): return "<b>h</b>"
+    def __str__(self): return "plain<"
+    def __repr__(self): return "<Html>"
+class Plain:
+    def __repr__(self): return "<Plain>"
+
+
+def markup_of(mod):
+    return mod.Markup if hasattr(mod, "Markup") else __import__("markupsafe").Markup
+
+
+def zoo(mod):
+    """name -> factory of a fresh value built from THIS engine's classes"""
+    M = markup_of(mod)
+    z = {}
+    z["none"] = lambda: None
+    z["undef"] = lambda: mod.Undefined(name="u")
+    z["strict_undef"] = lambda: mod.StrictUndefined(name="u")
+    z["debug_undef"] = lambda: mod.DebugUndefined(name="u")
+    z["true"] = lambda: True
+    z["false"] = lambda: False
+    for i, v in enumerate([0, 1, -3, 42, 10 ** 12]):
+        z[f"int{i}"] = (lambda v=v: v)
+    for i, v in enumerate([0.0, 1.5, -2.25, 1e10, float("inf")]):
+        z[f"float{i}"] = (lambda v=v: v)
+    for i, v in enumerate(["", "a", "Hello World", " <b>x</b> & 'q' ", "a\nb\n\nc", "12", "3.5", "ÀÉ ß", "a,b;c", "  pad  ", "UPPER", "lower"]):
+        z[f"str{i}"] = (lambda v=v: v)
+    z["bytes"] = lambda: b"by"
+    for i, v in enumerate([[], [1], [3, 1, 2], ["b", "A", "c"], [[1, 2], [3]], [{"a": 1, "b": "x"}, {"a": 0, "b": "y"}], [1, "a", None], [0, 1, "", "x"]]):
+        z[f"list{i}"] = (lambda v=v: copy.deepcopy(v))
+    z["tuple0"] = lambda: ()
+    z["tuple1"] = lambda: (1, "a")
+    z["dict0"] = lambda: {}
+    z["dict1"] = lambda: {"b": 2, "a": 1}
+    z["dict2"] = lambda: {"k": [1], "j": None}
+    z["set"] = lambda: {1}
+    z["frozenset"] = lambda: frozenset([2])
+    z["gen"] = lambda: (i for i in range(3))
+    z["range"] = lambda: range(4)
+    z["range0"] = lambda: range(0)
+    z["duck"], z["iteronly"], z["callme"], z["html"], z["plain"] = Duck, IterOnly, CallMe, Html, Plain
+    z["markup"] = lambda: M("<i>m</i> &amp;")
+    z["markup_empty"] = lambda: M("")
+    z["func"] = lambda: len
+    z["lambda"] = lambda: (lambda x=1: x)
+    z["cls"] = lambda: dict
+    z["namespace"] = lambda: mod.utils.Namespace(a=1)
+    z["cycler"] = lambda: mod.utils.Cycler(1, 2)
+    z["joiner"] = lambda: mod.utils.Joiner(", ")
+    z["complex"] = lambda: 1 + 2j
+    return z
+
+
+_MODPATH = re.compile(r"nunavut\.jinja\.(jinja2|markupsafe)", re.I)
+
+
+def canon_value(v, mod, depth=0):
+    M = markup_of(mod)
+    if isinstance(v, mod.Undefined):
+        return ("Undefined", type(v).__name__)
+    if isinstance(v, M):
+        return ("Markup", _ADDR.sub("0x?", _MODPATH.sub(r"\1", str(v))))
+    if isinstance(v, str):
+        return ("str", _ADDR.sub("0x?", _MODPATH.sub(r"\1", v)))
+    if isinstance(v, (bool, int, float, complex, bytes, type(None))):
+        return (type(v).__name__, repr(v))
+    if isinstance(v, (list, tuple)) and depth < 4:
+        return (type(v).__name__, tuple(canon_value(x, mod, depth + 1) for x in v))
+    if isinstance(v, dict) and depth < 4:
+        return ("dict", tuple((canon_value(k, mod, depth + 1), canon_value(x, mod, depth + 1)) for k, x in v.items()))
+    if isinstance(v, (set, frozenset)):
+        return (type(v).__name__, tuple(sorted(repr(x) for x in v)))
+    if hasattr(v, "__next__"):
+        try:
+            return ("iterator", tuple(canon_value(x, mod, depth + 1) for x in itertools.islice(v, 30)))
+        except Exception as e:  # noqa: BLE001
+            return ("iterator-raises", type(e).__name__)
+    return ("object", type(v).__name__)
+
+
+def outcome(fn, mod):
+    try:
+        return ("ok", canon_value(guarded(fn, 5), mod))
+    except Timeout:
+        return ("err", "Timeout")
+    except RecursionError:
+        return ("err", "RecursionError")
+    except Exception as e:  # noqa: BLE001
+        return ("err", type(e).__name__)
+
+
+# filters outside the common language (behaviour / signature / output format documented as changed upstream) and
+# (filter, situation) pairs on which the two lines differ by design; everything else must agree
+ZOO_EXCLUDED_FILTERS = {
+    "random": "non-deterministic",
+    "urlize": "output format and arguments changed upstream (rel/target/extra_schemes)",
+    "wordwrap": "rewritten in 2.11 (break_on_hyphens, empty input)",
+    "pprint": "`verbose` argument removed in 3.0",
+    "groupby": "`default` / `case_sensitive` arguments added in 3.0/3.1",
+    "truncate": "leeway policy", "xmlattr": "keys with spaces rejected since 3.1.3", "tojson": "policy defaults", "filesizeformat": "rounding fixed in 3.x",
+}
+_STRINGY_31 = {"urlencode", "wordcount", "trim", "striptags", "indent", "center", "title", "capitalize", "upper", "lower", "format", "replace"}
+
+
+def zoo_excluded(kind, name, vname, args, a, b):
+    """-> reason when this (test/filter, value, arguments) combination is outside the common language, else None"""
+    if kind == "filter":
+        if name in ZOO_EXCLUDED_FILTERS:
+            return ZOO_EXCLUDED_FILTERS[name]
+        if name == "attr" and args and not isinstance(args[0], str):
+            return "attr with a non-string name (Undefined in 2.x, TypeError in 3.x)"
+        if name == "trim" and args:
+            return "trim(chars) exists since 2.11 only"
+        if name == "indent" and args and not isinstance(args[0], int):
+            return "indent width as a string is 3.x only"
+        if name in _STRINGY_31 and vname.startswith("markup"):
+            return "string filters on Markup keep or drop Markup-ness differently (markupsafe copy vs package)"
+        if name in _STRINGY_31 and not vname.startswith("str"):
+            return "string filters coerce non-string input with soft_str in 3.x (TypeError in 2.x)"
+    if kind == "test" and name in ("odd", "even", "divisibleby") and vname.startswith("markup"):
+        return "`%` on Markup: different markupsafe versions"
+    return None
+
+
+ZOO_ARGSETS = [(), (2,), ("a",), (0,), ([1],), ("a", "b"), (True,), (None,)]
+ZOO_FILTER_ARGS = {
+    "default": [("d",), ("d", True)], "d": [("d", True)], "join": [(", ",), ("-", "a")], "replace": [("a", "b"), ("a", "b", 1)], "round": [(1,), (0, "floor"), (1, "ceil")],
+    "sort": [(True,), (False, True), (False, False, "a")], "dictsort": [(True,), (False, "value"), (False, "key", True)], "batch": [(2,), (2, "x")], "slice": [(2,), (2, "x")],
+    "sum": [("a",), ("a", 5)], "map": [("upper",), ("int",)], "select": [("odd",), ("string",), ("sequence",), ("mapping",), ("callable",)],
+    "reject": [("none",), ("sequence",)], "selectattr": [("a",), ("a", "eq", 1)], "rejectattr": [("a",)], "attr": [("a",), ("__len__",), ("real",)],
+    "indent": [(2,), (2, True), (1, False, True)], "center": [(9,)], "truncate": [(5,)], "int": [(7,), (0, 16)], "float": [(1.5,)], "format": [(1,), ("x", 2)],
+    "min": [(False, "a")], "max": [(True,)], "unique": [(True,), (False, "a")], "first": [], "last": [], "list": [], "length": [], "count": [], "string": [],
+}
+LITERALS = ["none", "true", "false", "0", "1", "1.5", "'a'", "''", "[1]", "[]", "(1,)", "()", "{'a': 1}", "{}", "range(2)", "'A'", "2 ** 70"]
+
+
+def run_zoo(ctx, bj, sj):
+    be, se = make_env(bj, {}), make_env(sj, {})
+    zb, zs = zoo(bj), zoo(sj)
+    tests = sorted(set(be.tests) & set(se.tests))
+    filters = sorted(set(be.filters) & set(se.filters))
+    ctx.extra["zoo"] = {"tests_common": len(tests), "tests_3x_only": sorted(set(se.tests) - set(be.tests)), "filters_common": len(filters),
+                        "filters_3x_only": sorted(set(se.filters) - set(be.filters)), "filters_bundled_only": sorted(set(be.filters) - set(se.filters)),
+                        "values": len(zb), "excluded_filters": ZOO_EXCLUDED_FILTERS}
+    excluded = {}
+
+    def judge(kind, name, vname, args, a, b, replay_):
+        ctx.count("zoo:" + kind)
+        if a == b or (a[0] == "err" and b[0] == "err"):
+            if a[0] == "err" and a != b:
+                ctx.count("zoo:both-fail-other-class")
+            return
+        why = zoo_excluded(kind, name, vname, args, a, b)
+        if why:
+            excluded[why] = excluded.get(why, 0) + 1
+            return
+        if kind == "test" and name == "mapping" and vname == "namespace":
+            key = {"kind": "snapshot-bug-namespace-is-mapping"}
+        else:
+            key = {"kind": kind + "-differs-from-stock", "name": name}
+        fail(ctx, key, f"the built-in {kind} `{name}` gives a different result in the bundled engine and in stock Jinja2",
+             dict({"stream": "zoo", "kind": kind, "name": name, "value": vname, "args": repr(args), "bundled": a, "stock": b}, **replay_))
+
+    for t in tests:
+        for vname in zb:
+            for args in ZOO_ARGSETS:
+                a = outcome(lambda: be.call_test(t, zb[vname](), list(args)), bj)
+                b = outcome(lambda: se.call_test(t, zs[vname](), list(args)), sj)
+                ctx.case(("zoo-test", t, vname, args), True)
+                judge("test", t, vname, args, a, b, {})
+    for f in filters:
+        if f == "random":
+            continue
+        for vname in zb:
+            for args in ZOO_ARGSETS + ZOO_FILTER_ARGS.get(f, []):
+                a = outcome(lambda: be.call_filter(f, zb[vname](), list(args)), bj)
+                b = outcome(lambda: se.call_filter(f, zs[vname](), list(args)), sj)
+                ctx.case(("zoo-filter", f, vname, args), True)
+                judge("filter", f, vname, args, a, b, {})
+    # template level: constant-folded literals, context values, select(), loop objects and macros
+    def rend(env, src, vals):
+        try:
+            return ("ok", _ADDR.sub("0x?", guarded(lambda: env.from_string(src).render(**vals), 5)))
+        except Timeout:
+            return ("err", "Timeout")
+        except Exception as e:  # noqa: BLE001
+            return ("err", type(e).__name__)
+    for t in tests:
+        srcs = [("literal:" + lit, "{{ %s is %s }}|{{ %s is not %s }}" % (lit, t, lit, t), None) for lit in LITERALS]
+        srcs.append(("loop", "{%% for x in [1, 2] %%}{{ loop is %s }}{%% endfor %%}" % t, None))
+        srcs.append(("macro", "{%% macro m() %%}{%% endmacro %%}{{ m is %s }}" % t, None))
+        srcs.append(("namespace", "{%% set ns = namespace(a=1) %%}{{ ns is %s }}" % t, None))
+        srcs.append(("undefined-name", "{{ nope is %s }}" % t, None))
+        for vname in zb:
+            srcs.append((vname, "{{ v is %s }}|{{ [v, 1]|select('%s')|list|length }}|{{ [v]|reject('%s')|list|length }}" % (t, t, t), vname))
+        for label, src, vname in srcs:
+            a = rend(be, src, {"v": zb[vname]()} if vname else {})
+            b = rend(se, src, {"v": zs[vname]()} if vname else {})
+            ctx.case(("zoo-test-template", src, vname), True)
+            judge("test", t, vname or label, ("template",), a, b, {"source": src})
+    ctx.extra["zoo"]["outside_common_language"] = dict(sorted(excluded.items()))
+
+
 # --------------------------------------------------------------------------------------------------
 # structural tie: the parsers' syntax trees
 # --------------------------------------------------------------------------------------------------
@@ -933,6 +1210,10 @@ def run_differential(ctx, bj, sj, corpus_templates):
     rng = ctx.rng
     import time as _t
     _t0 = _t.time()
+    run_zoo(ctx, bj, sj)
+    run_snapshot_bugs(ctx, bj, sj)
+    ctx.extra.setdefault("stream_seconds", {})["zoo+snapshot-probes"] = round(_t.time() - _t0, 1)
+    _t0 = _t.time()
     run_expressions(ctx, bj, sj)
     ctx.extra.setdefault("stream_seconds", {})["expressions"] = round(_t.time() - _t0, 1)
     plan = [((False, False), 420 if ctx.quick else 5000), ((True, False), 90 if ctx.quick else 800),
@@ -975,6 +1256,16 @@ def replay(ctx, path):
     stream = rp.get("stream")
     if stream in ("differential", "marker"):
         context = rp.get("context_json")
+        if rp.get("origin") == "snapshot-bug-probe":
+            be_, se_ = make_env(bj, {}), make_env(sj, {})
+            def r_(env):
+                try:
+                    return ["ok", env.from_string(rp["templates"]["main"]).render(**probe_values(rp.get("probe_values")))]
+                except Exception as e:  # noqa: BLE001
+                    return ["err", type(e).__name__]
+            b, s = r_(be_), r_(se_)
+            print(json.dumps({"bundled": b, "stock": s}))
+            return 0 if b == s or (b[0] == "err" and s[0] == "err") else 1
         if context is None:
             context = {k: eval(v, {"Markup": bj.Markup}) for k, v in rp.get("context", {}).items()}  # noqa: S307 - our own repr()s
         b = render(bj, rp["templates"], rp["main"], context, rp.get("trim_blocks", False), rp.get("lstrip_blocks", False), opts=rp.get("environment_options"))
@@ -1001,6 +1292,24 @@ def replay(ctx, path):
         b = parse_tree(make_env(sj, {}, rp.get("trim_blocks", False), rp.get("lstrip_blocks", False), opts=rp.get("environment_options")), sj, rp["source"])
         d = None if a == b else (first_ast_difference(a[1], b[1]) if a[0] == b[0] == "ok" else [a[:1], b[:1]])
         print(json.dumps({"first_difference": d}))
+        return 0 if a == b or (a[0] == "err" and b[0] == "err") else 1
+    if stream == "zoo":
+        be_, se_ = make_env(bj, {}), make_env(sj, {})
+        zb, zs = zoo(bj), zoo(sj)
+        args = eval(rp["args"])  # noqa: S307 - our own repr()
+        vn = rp["value"]
+        if rp.get("source"):
+            def r_(env, z):
+                try:
+                    return ["ok", env.from_string(rp["source"]).render(**({"v": z[vn]()} if vn in z else {}))]
+                except Exception as e:  # noqa: BLE001
+                    return ["err", type(e).__name__]
+            a, b = r_(be_, zb), r_(se_, zs)
+        else:
+            call = "call_test" if rp["kind"] == "test" else "call_filter"
+            a = outcome(lambda: getattr(be_, call)(rp["name"], zb[vn](), list(args)), bj)
+            b = outcome(lambda: getattr(se_, call)(rp["name"], zs[vn](), list(args)), sj)
+        print(json.dumps({"bundled": a, "stock": b}, default=str))
         return 0 if a == b or (a[0] == "err" and b[0] == "err") else 1
     if stream == "normalise":
         from nunavut.jinja.jinja2.lexer import Lexer
